@@ -2,15 +2,17 @@
    Property theorems only, closed by lemmas of proofs/P_slice.v about model/M_slice.v.  `day` is the
    length of a day in the unit of the timestamps (any integer; the harness uses hours, day = 24);
    `sorted rows` = strictly increasing timestamps; oc = (left bracket closed?, right bracket closed?). *)
-From Coq Require Import ZArith List Bool Arith Lia Sorting.Sorted String.
+From Coq Require Import ZArith List Bool Arith Lia Sorting.Sorted Sorting.Permutation String.
 From PB Require Import model.M_slice proofs.P_slice proofs.P_unslice.
 Import ListNotations.
 Open Scope Z_scope.
 
 (* a single slice returns exactly the rows with lb < / <= t and t < / <= ub as the brackets prescribe
    (all four combinations: oc ranges over bool * bool), a missing bound being unbounded; whichever of the
-   pandas fast path and the mask path the code takes *)
-Theorem C13_slice_exact {A} day oc lb ub (rows : list (Z * A)) : sorted rows ->
+   pandas fast path and the mask path the code takes.  No hypothesis on `rows`: the index may be stored in ANY
+   order (shuffled, newest first) and may repeat timestamps; the rows come back in their stored order.  (The label
+   slice is only taken when the index is in time order - `is_mono` - where it is proved equal to the mask.) *)
+Theorem C13_slice_exact {A} day oc lb ub (rows : list (Z * A)) :
   (forall a b, lb = BTod a -> ub = BTod b -> a <= b) ->
   df_slice_one day oc lb ub rows = filter (fun r => in_window day oc lb ub (fst r)) rows /\
   (forall t, in_window day oc lb ub t =
@@ -18,14 +20,14 @@ Theorem C13_slice_exact {A} day oc lb ub (rows : list (Z * A)) : sorted rows ->
                   | BTod h => if fst oc then h <=? t mod day else h <? t mod day end) &&
      (match ub with BNone => true | BAt b => if snd oc then t <=? b else t <? b
                   | BTod h => if snd oc then t mod day <=? h else t mod day <? h end)).
-Proof. intros S H. split; [exact (no_wrap_exact day oc lb ub rows S H) | reflexivity]. Qed.
+Proof. intros H. split; [exact (no_wrap_exact_any day oc lb ub rows H) | reflexivity]. Qed.
 Print Assumptions C13_slice_exact.
 
 (* rows and values otherwise untouched: the result is a sub-list of the input (same rows, same order) *)
-Theorem C13_rows_untouched {A} day oc lb ub (rows : list (Z * A)) : sorted rows ->
+Theorem C13_rows_untouched {A} day oc lb ub (rows : list (Z * A)) :
   (forall a b, lb = BTod a -> ub = BTod b -> a <= b) ->
   forall r, In r (df_slice_one day oc lb ub rows) <-> In r rows /\ in_window day oc lb ub (fst r) = true.
-Proof. intros S H r. rewrite (no_wrap_exact day oc lb ub rows S H). apply filter_In. Qed.
+Proof. intros H r. rewrite (no_wrap_exact_any day oc lb ub rows H). apply filter_In. Qed.
 Print Assumptions C13_rows_untouched.
 
 (* bounds given as times of day are compared with each row's time of day t mod day *)
@@ -42,6 +44,15 @@ Theorem C13_wraps_past_midnight {A} day oc a b (rows : list (Z * A)) : sorted ro
   filter (fun r => ge_lb day (fst oc) (BTod a) (fst r) || le_ub day (snd oc) (BTod b) (fst r)) rows.
 Proof. exact (wrap_exact day oc a b rows). Qed.
 Print Assumptions C13_wraps_past_midnight.
+(* the same for an index in any stored order and with repeated timestamps (tick data): the result holds every row
+   of the two half windows exactly as often as the input does (same multiset - no row is dropped or merged) and is
+   in time order (concat + sort_index) *)
+Theorem C13_wraps_any_order {A} day oc a b (rows : list (Z * A)) : b < a ->
+  Permutation (df_slice_one day oc (BTod a) (BTod b) rows)
+              (filter (fun r => ge_lb day (fst oc) (BTod a) (fst r) || le_ub day (snd oc) (BTod b) (fst r)) rows) /\
+  wsorted (df_slice_one day oc (BTod a) (BTod b) rows).
+Proof. exact (wrap_any day oc a b rows). Qed.
+Print Assumptions C13_wraps_any_order.
 
 (* the pinned tree drops `openclose` in the two recursive calls: with "[)" a row at midnight is kept by the
    window [03:00, 00:00) although 0 < 0 is false *)
@@ -176,6 +187,9 @@ Example C13_example :
   map fst (df_slice_one 24 (false, true) (BAt 12) (BAt 30) rows) = [18; 24; 30] /\
   map fst (df_slice_one 24 (false, false) (BAt 12) (BAt 30) rows) = [18; 24] /\
   map fst (df_slice_one 24 (true, false) (BTod 18) (BTod 6) rows) = [0; 18; 24] /\
+  (* stored newest-first with a repeated stamp: rows come back in stored order; wrap-around keeps both rows at 18 *)
+  map snd (df_slice_one 24 (true, true) (BAt 12) (BAt 30) [(30, 1); (18, 2); (18, 3); (6, 4); (12, 5)]) = [1; 2; 3; 5] /\
+  map snd (df_slice_one 24 (true, false) (BTod 18) (BTod 6) [(30, 1); (18, 2); (18, 3); (6, 4); (24, 5)]) = [2; 3; 5] /\
   parse_oc "[)" = Some (true, false) /\ parse_oc "x]" = None.
 Proof. split; [repeat constructor; simpl; lia | repeat split; vm_compute; reflexivity]. Qed.
 
